@@ -216,6 +216,41 @@ Fixpoint is_equal_to (t u : tree) : bool :=
   | _, _ => false
   end.
 
+(* TaxonomyTree.__eq__: is_equal_to and, per leaf, the same set of rows *)
+Definition tree_eqb (t u : tree) : bool :=
+  is_equal_to t u &&
+  forallb (fun x => set_eqb (children_of (leaf_level t) x) (children_of (leaf_level u) x))
+          (nodes (leaf_level t)).
+(* is_equal_to including its first test `self.hierarchy != other.hierarchy`
+   (ht, hu = the level names of the two trees) *)
+Fixpoint zlist_eqb (a b : list Z) : bool :=
+  match a, b with
+  | [], [] => true
+  | x :: a', y :: b' => (x =? y) && zlist_eqb a' b'
+  | _, _ => false
+  end.
+Definition is_equal_h (ht hu : list Z) (t u : tree) : bool := zlist_eqb ht hu && is_equal_to t u.
+
+(* the queries with their error behaviour made explicit *)
+Definition E_NONODE := 5.     (* children(level, node): node not at that level (RuntimeError) *)
+Definition E_KEY := 6.        (* parents(level, node): node has no recorded parent (KeyError) *)
+Definition children_chk (t : tree) (li : nat) (x : node) : tres (list Z) :=
+  if zmem x (nodes (nth li t [])) then TOk (children_of (nth li t []) x) else TErr E_NONODE.
+Fixpoint ancestors_chk (t : tree) (li : nat) (x : node) : tres (list (nat * node)) :=
+  match li with
+  | O => TOk []
+  | S k => match parent_of (nth k t []) x with
+           | Some p => match ancestors_chk t k p with
+                       | TOk l => TOk ((k, p) :: l)
+                       | TErr c => TErr c
+                       end
+           | None => TErr E_KEY
+           end
+  end.
+
+(* as_leaves[level li][x] *)
+Definition leaves_of (t : tree) (li : nat) (x : node) : list node := leaves_from (skipn li t) x.
+
 (* ---------------- wire ---------------- *)
 Definition sx_level : sx -> option level := sx_list (sx_pair sx_Z sx_LZ).
 Definition sx_tree : sx -> option tree := sx_list sx_level.
@@ -285,4 +320,45 @@ Definition run_is_equal (x : sx) : sx :=
   | L [a; b] => match sx_tree a, sx_tree b with
                 | Some t, Some u => sx_ok (of_bool (is_equal_to t u))
                 | _, _ => sx_bad end
+  | _ => sx_bad end.
+
+(* tag 1012: tree -> per level, per node: (node children parents) ; parents as result *)
+Definition of_anc (l : list (nat * node)) : sx := of_list (of_pair of_nat of_Z) l.
+Fixpoint node_table_from (t : tree) (li : nat) (rest : list level) : list sx :=
+  match rest with
+  | [] => []
+  | lv :: below =>
+      of_list (fun x => L [I x; of_tres of_LZ (children_chk t li x); of_tres of_anc (ancestors_chk t li x)])
+              (nodes lv)
+      :: node_table_from t (S li) below
+  end.
+Definition run_node_table (x : sx) : sx :=
+  match sx_tree x with
+  | Some t => sx_ok (L [of_LZ (children t None); L (node_table_from t 0 t)])
+  | None => sx_bad end.
+(* tag 1013: tree -> leaf_pairs for every entry of all_parents, in that order *)
+Definition run_all_leaf_pairs (x : sx) : sx :=
+  match sx_tree x with
+  | Some t => sx_ok (of_list (fun p => of_pairsZ (leaf_pairs t p)) (all_parents t))
+  | None => sx_bad end.
+(* tag 1014: tree -> drop_level at every index 0 .. length t (the last one is "not a level") *)
+Definition run_all_drops (x : sx) : sx :=
+  match sx_tree x with
+  | Some t => sx_ok (of_list (fun li => of_tres of_tree (drop_level t li)) (seq 0 (S (length t))))
+  | None => sx_bad end.
+(* tag 1015: (ht hu t u) -> (is_equal_to incl. hierarchy names, __eq__) *)
+Definition run_is_equal_h (x : sx) : sx :=
+  match x with
+  | L [a; b; c; d] => match sx_LZ a, sx_LZ b, sx_tree c, sx_tree d with
+                      | Some ht, Some hu, Some t, Some u =>
+                          sx_ok (L [of_bool (is_equal_h ht hu t u); of_bool (zlist_eqb ht hu && tree_eqb t u)])
+                      | _, _, _, _ => sx_bad end
+  | _ => sx_bad end.
+(* tag 1016: (tree li node) -> children / parents with their error behaviour *)
+Definition run_query_chk (x : sx) : sx :=
+  match x with
+  | L [a; b; c] => match sx_tree a, sx_nat b, sx_Z c with
+                   | Some t, Some li, Some n =>
+                       sx_ok (L [of_tres of_LZ (children_chk t li n); of_tres of_anc (ancestors_chk t li n)])
+                   | _, _, _ => sx_bad end
   | _ => sx_bad end.
